@@ -227,13 +227,48 @@ CLAIMS = {
         'itertools and the callee resolver',
    technique='flow-sensitive iterator typestate (abstract interpretation over the AST, header/data states, '
              'sentinel and zero provenance) + try/except dominance'),
+ 'C08': dict(
+   text='PARTIAL claim: the step function of the four set-operation loops, not the multiset algebra. The two-pointer merges '
+        '(itercomplement, iterintersection) and the Counter probes (iterhashcomplement, iterhashintersection) touch rows only '
+        'through < / == between the two cursors resp. count > 0, so one pass is a finite function of (comparison outcome, '
+        'strict, which next() is exhausted). An abstract step interpreter (petlsa/stepsem.py: cursors, sentinels, flags; every '
+        'reachable abstract state of the loop, by fixpoint) extracts that function from the source and each (state, outcome) '
+        'pair is compared with the step the multiset definition forces: a<b or b exhausted -> a goes out and advances; a==b -> '
+        'a advances, b advances unless strict; a>b -> b advances; intersection likewise; hash variants: b counted once without '
+        'its header, count>0 decides yield and decrement (R8.1, R8.2). Around the loops: strict reaches every callee that has '
+        'it and is stored unchanged (R8.3); the views sort both inputs alike, ascending, by the whole row, exactly when '
+        'presorted is false (R8.4); diff / recorddiff return (complement(b, a), complement(a, b)) (R8.5); recordcomplement '
+        'cuts b by the field names of a (R8.6); rows are compared as tuples and ordered through Comparable (R8.7).',
+   ref='DESIGN.md §4 C08',
+   note='necessary conditions only: the step tables are derived by hand from the multiset definitions (trusted); that the table '
+        'implies the algebra for every input rests on Comparable being a total preorder consistent with == (C04) and on the '
+        'sort (C05); loops outside the modelled family (a second loop, state beyond cursors / flags / sentinels) are reported '
+        'undecided; an early exit on a value-level budget is undecided',
+   technique='abstract interpretation of one loop pass over a finite domain (cursor / sentinel / flag states x comparison '
+             'outcome x exhaustion), fixpoint over abstract loop states, comparison with a step table; call-graph forwarding '
+             'checks; sort-application recogniser'),
+ 'C10': dict(
+   text='PARTIAL claim: the run-detection logic of duplicates / unique / distinct / conflicts / isunique, not key extraction or '
+        'sorting. Over key-sorted input each streaming loop is a finite transducer from the symbols first / EQ / NE / END (the '
+        'key of a row against its predecessor\'s) to "which of the last rows go out". The implementation\'s transducer is '
+        'extracted from the source by abstract interpretation (petlsa/stepsem.py: sentinels, flags, saturating run counters, '
+        'first-row-of-run tracking; fixpoint over abstract states) and its product with the specification transducer of the '
+        'operator is explored exhaustively; the output streams must agree up to a bounded delay, a mismatch is reported with '
+        'the symbol string that produces it (R10.1: runs of length 1, 2, >2, first and last row, None keys, header-only input '
+        'are all paths of the product). isunique answers False exactly at the first value seen before and remembers values '
+        'themselves (R10.2); key / count / missing / include / exclude reach views and iterators unchanged (R10.3); the views '
+        'sort by the operator\'s key, ascending, exactly when presorted is false (R10.4); the conflict test flags a pair '
+        'exactly when a compared field differs and neither value is `missing` (R10.5).',
+   ref='DESIGN.md §4 C10',
+   note='the specification transducers are written by hand (trusted); counts are compared up to "three or more"; conflicts is '
+        'specified as the pairwise detector the property describes ("only rows of groups that disagree"), not as a group-level '
+        'law; loops outside the modelled family are reported undecided',
+   technique='abstract interpretation of the loop body over a finite domain -> implementation transducer; exhaustive '
+             'exploration of the product with a specification transducer (bounded-delay output equivalence); decision table of '
+             'the conflict test; call-graph forwarding checks'),
 }
 
 NA = {
- 'C08': 'value-level: multiset algebra of a two-pointer merge and of Counter arithmetic; no structural clause carries it '
-        '(supporting structure is decided under C04, C11, C20)',
- 'C10': 'value-level: partition laws of run-length detection in four streaming loops; the one structural defect in the '
-        'area (distinct(count=) on a header-only table) is decided under C20',
  'C14': 'value-level: reshape round-trip identities (recast∘melt, transpose², unflatten∘flatten, fromdicts∘dicts) '
         'quantify over cell values; nothing in the shape of the code decides them',
 }
